@@ -13,22 +13,23 @@ def run_rules(repo, prop, tier):
     from rules.registry import PROPERTIES
     spec = PROPERTIES[prop]
     obs = []
-    for entry in spec["rules"]:
+    errors = []
+    entries = list(spec["rules"]) + (list(spec.get("thorough_rules", [])) if tier == "thorough" else [])
+    for entry in entries:
         rule, clause = entry[0], entry[1]
         kwargs = entry[2] if len(entry) > 2 else {}
-        got = rule(repo, clause, **kwargs)
-        if not got:
-            raise AnalysisError("rule %s produced no obligation for %s (vacuous pass refused)" % (rule.__name__, prop))
-        obs.extend(got)
-    if tier == "thorough":
-        for entry in spec.get("thorough_rules", []):
-            rule, clause = entry[0], entry[1]
-            kwargs = entry[2] if len(entry) > 2 else {}
-            obs.extend(rule(repo, clause, **kwargs))
-    fl = spec.get("floor", 1)
-    if len(obs) < fl:
-        raise AnalysisError("%s: %d obligations enumerated, floor is %d" % (prop, len(obs), fl))
-    return spec, obs
+        try:
+            got = rule(repo, clause, **kwargs)
+            if not got:
+                raise AnalysisError("rule %s produced no obligation for %s (vacuous pass refused)" % (rule.__name__, prop))
+            obs.extend(got)
+        except AnalysisError as e:
+            # one rule that cannot decide does not silence the violations other rules can report
+            errors.append("%s: %s" % (rule.__name__, e))
+        except Exception as e:
+            import traceback as _tb
+            errors.append("%s: internal error %s: %s | %s" % (rule.__name__, type(e).__name__, e, _tb.format_exc().strip().splitlines()[-3:]))
+    return spec, obs, errors
 
 
 def main(argv=None):
@@ -50,7 +51,7 @@ def main(argv=None):
             print("ANALYSIS-ERROR unknown property %s" % prop)
             return 2
         repo = Repo()
-        spec, obs = run_rules(repo, prop, args.tier)
+        spec, obs, rule_errors = run_rules(repo, prop, args.tier)
         selftest_info = None
         if args.tier == "thorough" and not args.replay and not args.no_evidence:
             bad_now = [o for o in obs if not o.ok]
@@ -84,6 +85,12 @@ def main(argv=None):
             print("VIOLATION property=%s replay=%s" % (prop, args.replay))
         return rc
 
+    if rule_errors and not any(not o.ok for o in obs):
+        for e in rule_errors:
+            print("ANALYSIS-ERROR property=%s %s" % (prop, e))
+        return 2
+    for e in rule_errors:
+        print("NOTE property=%s a rule could not decide (reported because other rules found violations): %s" % (prop, e))
     findings = load_known_findings()
     violated = [o for o in obs if not o.ok]
     known, new = [], []
